@@ -248,18 +248,28 @@ def run(tier, seed):
             for li_, st in ((0, 1), (1, 33)):
                 per[li_] = [(bytes(bytearray(r[:2]) + struct.pack("<H", (6 << 12) | st) + r[4:]), p) for r, p in per[li_]]
         per = [pk if i == 0 else corrupt(rng, pk, rng.choice([0.1, 0.3])) for i, pk in enumerate(per)]
+        mode = rng.choice([["check", "all", "its"], ["check", "sanity", "its"], ["check", "all"], ["check", "all", "its-stave"]])
+        shared_link = s % 3 == 1
+        if shared_link:
+            # two FEE ids read out through ONE link id (a file merged from two CRUs): in `check all its-stave` the unit of validation is
+            # the FEE id, so the two must not influence each other -- whichever filter narrows the input down
+            mode = ["check", "all", "its-stave"]
+            lid = per[0][0][0][12]
+            per[1] = [(r[:12] + bytes([lid]) + r[13:], p) for r, p in per[1]]
         order = layouts(rng, per)["random-1"]
         cd, ranges = place(per, order)
         merged = b"".join(r + p for _o, r, p in cd)
         mp = os.path.join(tmp, "m%d.raw" % s)
         open(mp, "wb").write(merged)
-        mode = rng.choice([["check", "all", "its"], ["check", "sanity", "its"], ["check", "all"]])
         jobs.append({"s": s, "kind": "merged", "args": [mp] + mode, "ranges": ranges, "per": per, "mode": mode})
         for i in range(nl):
             r0 = per[i][0][0]
             fee = struct.unpack_from("<H", r0, 2)[0]
             flt = rng.choice([["-f", str(r0[12])], ["-F", str(fee)], ["-s", "L%d_%d" % ((fee >> 12) & 7, fee & 0x3F)]])
-            jobs.append({"s": s, "kind": "filter", "link": i, "args": [mp] + flt + mode, "ranges": ranges, "flt": flt, "mode": mode})
+            if shared_link and i < 2:
+                flt = ["-f", str(r0[12])]
+            jobs.append({"s": s, "kind": "filter", "link": i, "args": [mp] + flt + mode, "ranges": ranges, "flt": flt, "mode": mode,
+                         "partner": (1 - i) if (shared_link and i < 2) else None})
             ap = os.path.join(tmp, "a%d_%d.raw" % (s, i))
             cda, ra = place(per, [(i, k) for k in range(len(per[i]))])
             open(ap, "wb").write(b"".join(r + p for _o, r, p in cda))
@@ -298,7 +308,7 @@ def run(tier, seed):
                                         "filter": " ".join(j.get("flt", [])), "this_run": a[:6], "merged_run": m_[:6], "count_this": len(a), "count_merged": len(m_),
                                         "merged_input_hex": "(stream %d of seed %d, %d packets)" % (s, seed, len(mj["ranges"])),
                                         "what": "errors for a link differ between the merged file and the %s run" % ("filtered" if kind == "filter" else "single-link file")})
-        others = [k for k in rb if k not in (link, "other", "unattributed") and rb[k]]
+        others = [k for k in rb if k not in (link, "other", "unattributed", j.get("partner")) and rb[k]]
         if kind == "filter" and others:
             chk.spec_violations.append({"stream": "cli-layouts", "mode": " ".join(j["mode"]), "filter": " ".join(j["flt"]), "link_index": link,
                                         "errors_of_other_links": {str(k): rb[k][:3] for k in others},
